@@ -305,11 +305,14 @@ def replay(params, model, notes, workdir, seed):
             return [] if norm(res.meta) == norm(t.meta) else ["C20.swallow.equals-keyword"]
         opt, mv = params["opt"], params["mv"]
         flag, ckey, kw, kind = OPTIONS[opt]
+        inline = any(k.endswith(".has-inline-comment") and int(v) == 1 for k, v in model.items())
         if kind == "list":
             n = 1 + int(model.get("nvals", 0))
-            value = ["http://v/%d" % i for i in range(n)]
+            value = ["http://v/%d" % i + (" ; mirror #%d" % i if inline else "") for i in range(n)]
         elif kind == "str":
             value = "true" if int(model.get("v0.is[lower:true]", 0)) else ("false" if int(model.get("v0.is[lower:false]", 0)) else "some value")
+            if inline:
+                value = "Disc 1 ; remastered #2"
         elif kind == "flag":
             value = True
         else:
